@@ -559,7 +559,13 @@ def _number(text: str) -> int | None:
 def parse_element(ctype: int, element: str) -> list:
     """one reported element (tests joined by &) -> [(and, op bits, value or None)]"""
     out = []
-    for i, piece in enumerate(element.split('&')):
+    pieces = element.split('&')
+    lead = 0
+    if len(pieces) > 1 and pieces[0] == '' and ctype not in (9, 12):
+        # numeric components: the AND bit set on the first test of an element is reported as a leading '&'
+        # (for the bitmask components a leading '&' is a first test whose value 0 prints as nothing, followed by an AND test)
+        pieces, lead = pieces[1:], 1
+    for i, piece in enumerate(pieces):
         if ctype in (9, 12):
             m = _BIT.match(piece)
             op, rest = BITMASK_OPS[m.group(1)], m.group(2)
@@ -578,7 +584,7 @@ def parse_element(ctype: int, element: str) -> list:
                 if part not in BIT_NAMES[ctype]:
                     raise Unreadable(element)
                 value += BIT_NAMES[ctype][part]
-            out.append((1 if i else 0, op, value))
+            out.append((1 if (i or lead) else 0, op, value))
         else:
             m = _NUM.match(piece)
             if not m:
@@ -592,7 +598,7 @@ def parse_element(ctype: int, element: str) -> list:
                     value = VALUE_NAMES.get(ctype, {}).get(rest)
                 if value is None:
                     raise Unreadable(element)
-            out.append((1 if i else 0, op, value))
+            out.append((1 if (i or lead) else 0, op, value))
     return out
 
 
@@ -629,6 +635,9 @@ def canonical_from_json(afi: int, doc: dict) -> tuple:
             terms = []
             for e in elements:
                 terms.extend(parse_element(ctype, e))
+            if terms and terms[0][0]:
+                # RFC 8955 4.2.1.1: the AND bit of the first test of a component has nothing to join and is not part of the rule
+                terms[0] = (0,) + tuple(terms[0][1:])
             comps[ctype] = terms
     return [(t, comps[t]) for t in sorted(comps)], doc.get('rd')
 
@@ -670,7 +679,10 @@ def canonical_from_extensive(afi: int, text: str) -> tuple:
                 raise Unreadable(text)
             out.append((t, comps[t][0]))
         else:
-            out.append((t, comps[t]))
+            terms = comps[t]
+            if terms and terms[0][0]:
+                terms[0] = (0,) + tuple(terms[0][1:])  # see canonical_from_json
+            out.append((t, terms))
     return out, rd
 
 
